@@ -39,3 +39,23 @@ Example C01_family_nonvacuous :
   fam_version SNPM a /\ fam_version SNPM b /\ fam_version SNPM c /\
   compare a b = Ok 0%Z /\ compare a c = Ok (-1)%Z /\ compare c a = Ok 1%Z.
 Proof. vm_compute. repeat split; reflexivity. Qed.
+
+(* Consequently sorting a list of versions yields the same sequence of equivalence classes
+   whatever the input order (and whatever correct sorting algorithm is used): two sorted
+   lists that are permutations of each other compare equal position by position.
+   (Lib/SortClasses.v proves this for every comparator satisfying the four laws; it is
+   instantiated here for the SemVer family and applies verbatim to the comparators of
+   C01_pypi, C01_gem and C01_maven.) *)
+From Coq Require Import Permutation.
+From DepsDev Require Import Lib.SortClasses.
+Theorem C01_sort_classes : forall S (l1 l2 : list version),
+  Forall (fam_version S) l1 -> Forall (fam_version S) l2 -> Permutation l1 l2 ->
+  sorted (generic_compare S) l1 -> sorted (generic_compare S) l2 ->
+  Forall2 (fun a b => generic_compare S a b = 0%Z) l1 l2.
+Proof.
+  intros S l1 l2 P1 P2 HP S1 S2.
+  assert (L : cmp_laws (fam_version S) (generic_compare S)).
+  { apply core_laws. apply (core_weaken (fun _ => True) (fam_version S)); [auto | apply generic_compare_core]. }
+  exact (sorted_perm_classes (fam_version S) (generic_compare S) L l1 l2 P1 P2 HP S1 S2).
+Qed.
+Print Assumptions C01_sort_classes.
